@@ -6,9 +6,9 @@ for p in sorted(glob.glob('/verif/seeded/*/meta.json')):
     m = json.load(open(p))
     first = m.get('first_evaluation', '')
     rows.append((m['seed'], m['property'], m.get('needs_to_manifest', '')[:170], ', '.join(m.get('caught_by', [])) or 'none',
-                 'NOT DETECTED (see meta.json)' if m.get('not_detected') else 'no alarm expected: does not break the property as stated (see meta.json)' if m.get('not_property_breaking') else 'missed; later made harmless by a fix in /repo (see meta.json)' if m.get('neutralised_by') else ('missed, then strengthened' if ('missed' in first.lower() or 'would have' in first) else 'caught')))
+                 'NOT DETECTED (see meta.json)' if m.get('not_detected') else 'no alarm expected: does not break the property as stated (see meta.json)' if m.get('not_property_breaking') else ('missed; later made harmless by a fix in /repo (see meta.json)' if ('missed' in first.lower() or 'would have' in first) else 'caught; later made harmless by a fix in /repo (see meta.json)') if m.get('neutralised_by') else ('missed, then strengthened' if ('missed' in first.lower() or 'would have' in first) else 'caught')))
 tab = "| seeded change | property | needs, to manifest | caught by | first evaluation |\n|---|---|---|---|---|\n" + "".join("| %s | %s | %s | %s | %s |\n" % r for r in rows)
-n_missed = sum(1 for r in rows if r[4] != 'caught' and not r[4].startswith('no alarm expected'))
+n_missed = sum(1 for r in rows if not r[4].startswith('caught') and not r[4].startswith('no alarm expected'))
 n_np = sum(1 for r in rows if r[4].startswith('no alarm expected'))
 s = open('/verif/DESIGN.md').read()
 a = s.index('| seeded change | property |')
